@@ -108,9 +108,13 @@ def gen_case(rng, n_steps, trace):
             if rng.random() < 0.6:
                 reported[k] = ground(1)
     rule_substs = {str(i): {v: ground(1) for v in set(vars_of(r['l'])) | set(vars_of(r['r']))} for i, r in enumerate(rules)}
+    off = rng.choice([0, 0, 1, 2])       # axioms before the rules that take an ordinal without being rules (rule i has ordinal i + off)
+    for st in steps:
+        st['rule'] += off
+    rule_substs = {k: v for k, v in rule_substs.items()}
     noise = [[rng.choice(['fun', 'hook']) for _ in range(rng.choice([0, 0, 1, 2, 3]))] for _ in steps]     # events between the rule events
     return {'cmd': 'ktrace', 'trace': trace, 'optimize': rng.random() < 0.5, 'reported': reported, 'rule_substs': rule_substs, 'noise': noise,
-            'definition': {'sorts': sorts, 'symbols': symbols, 'rules': rules}, 'init': init, 'steps': steps}
+            'definition': {'sorts': sorts, 'symbols': symbols, 'rules': rules, 'ordinal_offset': off}, 'init': init, 'steps': steps}
 
 
 def kmatch(pat, t, sg):
